@@ -78,7 +78,12 @@ def gen(rng, tier):
         param = 'ma'
         # without its class: bare, or under the module it was first registered
         # in (before the class took it over)
-        sel_full = rng.choice(['meth', 'meth', 'ginsim_probes.meth', 'mm.meth'])
+        sel_full = rng.choice(['meth', 'meth', 'ginsim_probes.meth', 'mm.meth',
+                               # (K.meth2 gets registered by the dyn_touch
+                               # operation, if at all: dynamically)
+                               'meth2', 'meth2'])
+        if sel_full == 'meth2':
+          param = 'm2'
       else:
         param = 'a'
         sel_full = rng.choice(['never_registered', 'mm.s0.ghost'])
